@@ -47,7 +47,9 @@ def namedOfType (t : TypeD) : Option NamedT :=
 
 def regOfSchema (s : SchemaD) : Reg :=
   { types := [("Int", .int), ("Float", .float), ("String", .string), ("Boolean", .boolean), ("ID", .id)] ++
-      s.types.filterMap fun t => (namedOfType t).map fun k => (t.name, k) }
+      s.types.filterMap fun t => (namedOfType t).map fun k => (t.name, k),
+    -- custom scalars of SDL-built schemas have no parser of their own: `ScalarType` falls back to `default_scalar`
+    customParse := defaultScalarParse, customParseLiteral := defaultScalarParseLiteral }
 
 /-! ### canonical text of the keyword arguments (what the resolver world hashes) -/
 
